@@ -69,3 +69,16 @@ for _w, _fn in ((0, 'htp_table_addn'), (1, 'htp_table_addk'), (2, 'htp_table_add
                    flags_add=['--unwind', str(2 * _m + 1), '--unwinding-assertions', '--memory-leak-check'],
                    sub='%s on the REAL code (real list push/pop): one pair appended at the end, earlier pairs untouched, failed second push pops the key, key-ownership modes mutually exclusive, no leak or double free under any allocation failure; list capacity %d, every head position enumerated' % (_fn, _m),
                    assumes=['list capacity and head position enumerated as constants (capacity 2; thorough adds 4): CBMC mis-models symbolic-length memcpy into pointer arrays']))
+
+UNITS.append(U(name='htp_table_clear', props=['C17', 'C18', 'C01'], kind='contract', src=['htp_table.c', 'htp_list.c'], enforce='htp_table_clear',
+               replace=['bstr_free/contract_c17log_bstr_free'], contracts_inc=['c17_table.h'],
+               loops={'htp_table.c': {'htp_table_clear': {'count': 1, 0: dict(
+                   assigns='i, key, g_cmp_n, g_last_key, g_last_res, g_wit_key, g_wit_res',
+                   inv=['i % 2 == 0 && i <= n', 'g_cmp_n == i / 2', '(2 * gk < i) ==> g_wit_key == VIEW(&table->list, 2 * gk)'], dec='n - i')}}},
+               harness='void HARNESS(void) { htp_table_t *t; htp_table_clear(t); CANARY(); }', defs=D, min_obl=30,
+               sub='clearing: a table that owns its keys (copied / adopted) hands every key - and only keys, in pair order, one call per pair - to bstr_free; a referencing table frees nothing; '
+                   'the table is empty afterwards and keeps storage and policy',
+               assumes=A[:1] + ['bstr_free replaced by a call-logging stub (the release itself is free(); double-free obligations are in the C18 ownership units)']))
+UNITS.append(U(name='htp_table_clear_ex', props=['C17', 'C18', 'C01'], kind='contract', src=['htp_table.c', 'htp_list.c'], enforce='htp_table_clear_ex', replace=['bstr_free/contract_c17log_bstr_free'],
+               contracts_inc=['c17_table.h'], harness='void HARNESS(void) { htp_table_t *t; htp_table_clear_ex(t); CANARY(); }', defs=D, min_obl=10,
+               sub='clear_ex empties the table and releases no key (the stub of bstr_free is not in the frame)', assumes=A[:1]))
